@@ -64,28 +64,97 @@ EPS = Rat.sym('eps')
 MINV = Rat.sym('Minv')
 
 
+NBLK = 2  # the abstract operator holds two parameters of sizes n0, n1 (catches offset / slicing errors)
+
+
+class Vec:
+    """blockwise value: one linear form per parameter block"""
+
+    def __init__(self, blocks):
+        self.b = list(blocks)
+
+    @staticmethod
+    def atom(a):
+        return Vec([Lin.atom(a) for _ in range(NBLK)])
+
+    def __add__(self, o):
+        return Vec([x + y for x, y in zip(self.b, o.b)])
+
+    def __sub__(self, o):
+        return Vec([x - y for x, y in zip(self.b, o.b)])
+
+    def __neg__(self):
+        return Vec([-x for x in self.b])
+
+    def scale(self, r):
+        return Vec([x.scale(r) for x in self.b])
+
+    def equals(self, o):
+        return all(x.equals(y) for x, y in zip(self.b, o.b))
+
+    def __repr__(self):
+        if all(self.b[0].equals(x) for x in self.b[1:]):
+            return repr(self.b[0])
+        return '[' + ' | '.join(repr(x) for x in self.b) + ']'
+
+
+class Blk:
+    """value of a single parameter block j"""
+
+    def __init__(self, j, lin):
+        self.j = j
+        self.lin = lin
+
+    def __add__(self, o):
+        if isinstance(o, Blk) and o.j == self.j:
+            return Blk(self.j, self.lin + o.lin)
+        raise Unsupported(None, 'sum of values belonging to different parameter blocks')
+
+    def __sub__(self, o):
+        if isinstance(o, Blk) and o.j == self.j:
+            return Blk(self.j, self.lin - o.lin)
+        raise Unsupported(None, 'difference of values belonging to different parameter blocks')
+
+    def __neg__(self):
+        return Blk(self.j, -self.lin)
+
+    def scale(self, r):
+        return Blk(self.j, self.lin.scale(r))
+
+
+def off_add(a, b):
+    d = dict(a)
+    for k, v in b.items():
+        d[k] = d.get(k, 0) + v
+    return {k: v for k, v in d.items() if v}
+
+
+def off_prefix(j):
+    return {i: 1 for i in range(j)}
+
+
 class Exec:
     """abstract execution of the integrator body"""
 
-    def __init__(self, fn: ast.FunctionDef, module, n_steps: int):
+    def __init__(self, fn: ast.FunctionDef, module, n_steps: int, helpers=None):
         self.fn = fn
         self.module = module
         self.n = n_steps
+        self.helpers = helpers or {}
         params = [a.arg for a in fn.args.args]
         # (self, model, parameters, momentum, inverse_mass_matrix)
         if len(params) < 5:
             raise Unsupported(fn, 'integrator signature not understood')
         self.model, self.parameters, self.momentum, self.minv = params[1], params[2], params[3], params[4]
-        self.env: Dict[str, object] = {self.momentum: Lin.atom('p0')}
-        self.leaf: Optional[Lin] = None  # value the model's leaves hold
-        self.leaf_fresh = False
-        self.evals: List[Lin] = []  # q at each gradient evaluation
+        self.env: Dict[str, object] = {self.momentum: Vec.atom('p0')}
+        self.leaf: Optional[Vec] = None  # value the model's leaves hold
+        self.fresh = [False] * NBLK
+        self.evals: List[Vec] = []  # q at each gradient evaluation
         self.grad_of: Optional[int] = None  # evaluation index whose gradient sits in .grad
-        self.pending: Optional[int] = None  # evaluation index of the last model() call
         self.problems: List[str] = []
         self.raises: List[str] = []
-        self.ret: Optional[Lin] = None
-        self.trace: List[str] = []
+        self.ret: Optional[Vec] = None
+        self.param_names = {self.parameters}
 
     # -- scalars -----------------------------------------------------------
     def scalar(self, e) -> Optional[Rat]:
@@ -97,17 +166,64 @@ class Exec:
     def _scalar_atom(self, e):
         if self_attr(e) == 'step_size':
             return EPS
+        if isinstance(e, ast.Name) and isinstance(self.env.get(e.id), Rat):
+            return self.env[e.id]
+        return None
+
+    def cur_leaf(self) -> Vec:
+        return self.leaf if self.leaf is not None else Vec.atom('q0')
+
+    # -- offsets -------------------------------------------------------------
+    def offset(self, e) -> Optional[dict]:
+        if isinstance(e, ast.Constant) and e.value == 0:
+            return {}
+        if isinstance(e, ast.Name) and isinstance(self.env.get(e.id), dict):
+            return self.env[e.id]
+        if isinstance(e, ast.Subscript) and isinstance(e.value, ast.Attribute) and e.value.attr == 'shape' and isinstance(e.value.value, ast.Name):
+            p = self.env.get(e.value.value.id)
+            if isinstance(p, tuple) and p[0] == 'param':
+                return {p[1]: 1}
+        if isinstance(e, ast.BinOp) and isinstance(e.op, ast.Add):
+            a, b = self.offset(e.left), self.offset(e.right)
+            if a is not None and b is not None:
+                return off_add(a, b)
         return None
 
     # -- values ------------------------------------------------------------
-    def value(self, e) -> Lin:
+    def value(self, e):
         if isinstance(e, ast.Name):
             v = self.env.get(e.id)
-            if isinstance(v, Lin):
+            if isinstance(v, (Vec, Blk)):
                 return v
             raise Unsupported(e, f"{e.id} has no tracked value")
         if isinstance(e, ast.UnaryOp) and isinstance(e.op, ast.USub):
             return -self.value(e.operand)
+        if isinstance(e, ast.Attribute) and e.attr in ('tensor', 'grad') and isinstance(e.value, ast.Name):
+            p = self.env.get(e.value.id)
+            if isinstance(p, tuple) and p[0] == 'param':
+                if e.attr == 'tensor':
+                    return Blk(p[1], self.cur_leaf().b[p[1]])
+                if self.grad_of is None:
+                    raise Unsupported(e, 'gradient read before any backward()')
+                return Blk(p[1], Lin.atom(f"g{self.grad_of}"))
+        if isinstance(e, ast.Subscript):
+            sl = e.slice
+            elts = sl.elts if isinstance(sl, ast.Tuple) else [sl]
+            last = elts[-1]
+            if isinstance(last, ast.Slice) and last.lower is not None and last.upper is not None:
+                base = self.value(e.value)
+                lo, hi = self.offset(last.lower), self.offset(last.upper)
+                if isinstance(base, Vec) and lo is not None and hi is not None:
+                    for j in range(NBLK):
+                        if lo == off_prefix(j) and hi == off_prefix(j + 1):
+                            return Blk(j, base.b[j])
+                    self.problems.append(f"line {e.lineno}: slice [{ast.unparse(last)}] does not select the block of the parameter being updated")
+                    # the slice selects some other block: use block 0 of the vector (what start=0 would give)
+                    for j in range(NBLK):
+                        if lo == off_prefix(j):
+                            return Blk(self._cur_param, base.b[j])
+                    raise Unsupported(e, 'slice offsets not understood')
+            raise Unsupported(e, f"subscript {ast.unparse(e)[:50]} not understood")
         if isinstance(e, ast.Call):
             f = e.func
             if isinstance(f, ast.Attribute) and f.attr in ('clone', 'detach', 'requires_grad_', 'contiguous') and not e.args:
@@ -116,8 +232,7 @@ class Exec:
             if dn == 'cat' and e.args and isinstance(e.args[0], (ast.ListComp, ast.GeneratorExp)):
                 comp = e.args[0]
                 it = comp.generators[0].iter
-                if isinstance(it, ast.Name) and it.id == self.parameters:
-                    # chain of attributes on the loop variable
+                if isinstance(it, ast.Name) and it.id in self.param_names:
                     chain = []
                     x = comp.elt
                     while isinstance(x, (ast.Call, ast.Attribute)):
@@ -128,20 +243,19 @@ class Exec:
                             x = x.value
                     chain = list(reversed(chain))
                     if chain[:1] == ['tensor']:
-                        if self.leaf is None:
-                            return Lin.atom('q0')
-                        return self.leaf
+                        return self.cur_leaf()
                     if chain[:1] == ['grad']:
                         if self.grad_of is None:
                             raise Unsupported(e, 'gradient read before any backward()')
-                        return Lin.atom(f"g{self.grad_of}")
+                        return Vec.atom(f"g{self.grad_of}")
             raise Unsupported(e, f"call {ast.unparse(e)[:50]} not understood")
         if isinstance(e, ast.BinOp):
             if isinstance(e.op, (ast.Add, ast.Sub)):
                 a, b = self.value(e.left), self.value(e.right)
+                if type(a) is not type(b):
+                    raise Unsupported(e, 'whole vector combined with a single parameter block')
                 return a + b if isinstance(e.op, ast.Add) else a - b
             if isinstance(e.op, (ast.Mult, ast.MatMult, ast.Div)):
-                # scalar * value, value * scalar, Minv * value, Minv @ value, value / scalar
                 sl, sr = self.scalar_or_minv(e.left), self.scalar_or_minv(e.right)
                 if isinstance(e.op, ast.Div):
                     if sr is None:
@@ -166,6 +280,37 @@ class Exec:
             return None
         return self.scalar(e)
 
+    # -- concrete conditions on the step counter --------------------------------
+    def concrete(self, e) -> Optional[int]:
+        if isinstance(e, ast.Constant) and isinstance(e.value, int):
+            return e.value
+        if isinstance(e, ast.Name) and isinstance(self.env.get(e.id), int) and not isinstance(self.env.get(e.id), bool):
+            return self.env[e.id]
+        if self_attr(e) == 'steps':
+            return self.n
+        if isinstance(e, ast.BinOp) and isinstance(e.op, (ast.Add, ast.Sub)):
+            a, b = self.concrete(e.left), self.concrete(e.right)
+            if a is not None and b is not None:
+                return a + b if isinstance(e.op, ast.Add) else a - b
+        return None
+
+    def concrete_test(self, t) -> Optional[bool]:
+        if isinstance(t, ast.Compare) and len(t.ops) == 1:
+            a, b = self.concrete(t.left), self.concrete(t.comparators[0])
+            if a is None or b is None:
+                return None
+            op = t.ops[0]
+            return {ast.Gt: a > b, ast.GtE: a >= b, ast.Lt: a < b, ast.LtE: a <= b, ast.Eq: a == b, ast.NotEq: a != b}.get(type(op))
+        if isinstance(t, ast.UnaryOp) and isinstance(t.op, ast.Not):
+            v = self.concrete_test(t.operand)
+            return None if v is None else not v
+        if isinstance(t, ast.BoolOp):
+            vs = [self.concrete_test(v) for v in t.values]
+            if any(v is None for v in vs):
+                return None
+            return all(vs) if isinstance(t.op, ast.And) else any(vs)
+        return None
+
     # -- statements -----------------------------------------------------------
     def run(self):
         self.block(self.fn.body)
@@ -177,28 +322,67 @@ class Exec:
                 return
             self.stmt(st)
 
+    def set_leaf_block(self, j, lin, st):
+        cur = self.cur_leaf()
+        blocks = list(cur.b)
+        blocks[j] = lin
+        self.leaf = Vec(blocks)
+        self.fresh[j] = True
+
     def stmt(self, st):
         if isinstance(st, (ast.Assert, ast.Pass)) or (isinstance(st, ast.Expr) and isinstance(st.value, ast.Constant)):
             return
         if isinstance(st, ast.Return):
+            if st.value is None:
+                self.ret = Vec.atom('<none>')
+                return
             self.ret = self.value(st.value)
             return
-        if isinstance(st, ast.Assign) and len(st.targets) == 1 and isinstance(st.targets[0], ast.Name):
-            name = st.targets[0].id
+        if isinstance(st, ast.Assign) and len(st.targets) == 1:
+            tgt = st.targets[0]
             v = st.value
-            if isinstance(v, ast.Call) and isinstance(v.func, ast.Name) and v.func.id == self.model:
-                if not self.leaf_fresh:
-                    self.problems.append(f"line {st.lineno}: the model is evaluated without fresh leaf tensors (no set_tensor since the last backward): "
-                                         f"gradients accumulate in .grad")
-                self.evals.append(self.leaf if self.leaf is not None else Lin.atom('q0'))
-                self.pending = len(self.evals) - 1
-                self.env[name] = ('U', self.pending)
+            if isinstance(tgt, ast.Name):
+                name = tgt.id
+                if isinstance(v, ast.Call) and isinstance(v.func, ast.Name) and v.func.id == self.model:
+                    if not all(self.fresh):
+                        self.problems.append(f"line {st.lineno}: the model is evaluated without fresh leaf tensors for every parameter (no set_tensor / re-assignment "
+                                             f"since the last backward): gradients accumulate in .grad")
+                    self.evals.append(self.cur_leaf())
+                    self.env[name] = ('U', len(self.evals) - 1)
+                    return
+                off = self.offset(v)
+                if off is not None:
+                    self.env[name] = off
+                    return
+                sc = self.scalar(v)
+                if sc is not None and not any(isinstance(n, ast.Name) and isinstance(self.env.get(n.id), (Vec, Blk)) for n in ast.walk(v)):
+                    self.env[name] = sc
+                    return
+                self.env[name] = self.value(v)
                 return
-            self.env[name] = self.value(v)
-            return
+            if isinstance(tgt, ast.Attribute) and tgt.attr == 'tensor' and isinstance(tgt.value, ast.Name):
+                p = self.env.get(tgt.value.id)
+                if isinstance(p, tuple) and p[0] == 'param':
+                    self._cur_param = p[1]
+                    val = self.value(v)
+                    if not isinstance(val, Blk) or val.j != p[1]:
+                        self.problems.append(f"line {st.lineno}: a parameter is assigned a value that is not its own block")
+                        if not isinstance(val, Blk):
+                            raise Unsupported(st, 'parameter assigned a whole vector')
+                    self.set_leaf_block(p[1], val.lin, st)
+                    return
+            if isinstance(tgt, ast.Attribute) and tgt.attr == 'requires_grad':
+                return
+            raise Unsupported(st, f"assignment {norm_text(st)[:50]} not understood")
         if isinstance(st, ast.AugAssign) and isinstance(st.target, ast.Name):
             cur = self.env.get(st.target.id)
-            if not isinstance(cur, Lin):
+            if isinstance(cur, dict):
+                off = self.offset(st.value)
+                if off is None or not isinstance(st.op, ast.Add):
+                    raise Unsupported(st, 'offset update not understood')
+                self.env[st.target.id] = off_add(cur, off)
+                return
+            if not isinstance(cur, (Vec, Blk)):
                 raise Unsupported(st, 'augmented assignment to an untracked name')
             rhs = self.value(st.value)
             if isinstance(st.op, ast.Add):
@@ -211,20 +395,29 @@ class Exec:
         if isinstance(st, ast.Expr) and isinstance(st.value, ast.Call):
             c = st.value
             dn = dotted_name(c.func) or ''
-            if dn.split('.')[-1] == 'set_tensor' and len(c.args) == 2:
-                self.leaf = self.value(c.args[1])
-                self.leaf_fresh = True
+            if dn.split('.')[-1] in self.helpers and len(c.args) == 2:
+                # helper(parameters, tensor): executed in the same abstract state
+                h = self.helpers[dn.split('.')[-1]]
+                hp = [a.arg for a in h.args.args]
+                saved = dict(self.env)
+                self.env[hp[0]] = ('params',)
+                self.param_names = self.param_names | {hp[0]}
+                self.env[hp[1]] = self.value(c.args[1])
+                self.fresh = [False] * NBLK
+                self.block(h.body)
+                self.ret = None
+                keep = {k: v for k, v in saved.items()}
+                self.env = keep
                 return
             if isinstance(c.func, ast.Attribute) and c.func.attr == 'backward' and isinstance(c.func.value, ast.Name):
                 u = self.env.get(c.func.value.id)
                 if not (isinstance(u, tuple) and u[0] == 'U'):
                     raise Unsupported(st, 'backward() on something that is not the model value')
                 self.grad_of = u[1]
-                self.leaf_fresh = False
+                self.fresh = [False] * NBLK
                 return
             raise Unsupported(st, f"call {ast.unparse(c)[:50]} not understood")
         if isinstance(st, ast.If):
-            # NaN guards
             calls = [(dotted_name(c.func) or '').split('.')[-1] for c in ast.walk(st.test) if isinstance(c, ast.Call)]
             if 'isnan' in calls or 'isinf' in calls or 'isfinite' in calls:
                 for b in st.body:
@@ -235,52 +428,57 @@ class Exec:
                 if not all(isinstance(b, ast.Raise) for b in st.body) or st.orelse:
                     raise Unsupported(st, 'NaN guard that does more than raise')
                 return
-            # dim()==1 / else: both branches must agree
+            cv = self.concrete_test(st.test)
+            if cv is not None:
+                self.block(st.body if cv else st.orelse)
+                return
             if any(isinstance(n, ast.Name) and n.id == self.minv for n in ast.walk(st.test)):
-                saved = dict(self.env)
+                saved = (dict(self.env), self.leaf, list(self.fresh))
                 self.block(st.body)
-                a = dict(self.env)
-                self.env = dict(saved)
+                a = (dict(self.env), self.leaf, list(self.fresh))
+                self.env, self.leaf, self.fresh = dict(saved[0]), saved[1], list(saved[2])
                 self.block(st.orelse)
-                b = self.env
-                for k in set(a) | set(b):
-                    va, vb = a.get(k), b.get(k)
-                    if isinstance(va, Lin) and isinstance(vb, Lin):
+                b = (self.env, self.leaf, self.fresh)
+                for k in set(a[0]) | set(b[0]):
+                    va, vb = a[0].get(k), b[0].get(k)
+                    if isinstance(va, Vec) and isinstance(vb, Vec):
                         if not va.equals(vb):
                             self.problems.append(f"line {st.lineno}: diagonal and dense mass-matrix branches update `{k}` differently")
-                    elif va != vb:
+                    elif isinstance(va, (Vec, Blk)) != isinstance(vb, (Vec, Blk)):
                         self.problems.append(f"line {st.lineno}: branches disagree on `{k}`")
-                self.env = a
+                if (a[1] is None) != (b[1] is None) or (a[1] is not None and not a[1].equals(b[1])):
+                    self.problems.append(f"line {st.lineno}: diagonal and dense mass-matrix branches leave different positions in the parameters")
+                self.env, self.leaf, self.fresh = a
                 return
             raise Unsupported(st, 'conditional not understood')
         if isinstance(st, ast.For):
             it = st.iter
             if isinstance(it, ast.Call) and isinstance(it.func, ast.Name) and it.func.id == 'range' and len(it.args) == 1 \
-                    and self_attr(it.args[0]) == 'steps':
-                for _ in range(self.n):
+                    and self.concrete(it.args[0]) is not None and isinstance(st.target, ast.Name):
+                for k in range(self.concrete(it.args[0])):
+                    self.env[st.target.id] = k
                     self.block(st.body)
                 return
-            if isinstance(it, ast.Name) and it.id == self.parameters:
-                # housekeeping loop (requires_grad = False)
-                for b in st.body:
-                    ok = isinstance(b, ast.Assign) and isinstance(b.targets[0], ast.Attribute) and b.targets[0].attr == 'requires_grad'
-                    if not ok:
-                        raise Unsupported(b, 'loop over parameters does more than reset requires_grad')
+            if isinstance(it, ast.Name) and it.id in self.param_names and isinstance(st.target, ast.Name):
+                for j in range(NBLK):
+                    self.env[st.target.id] = ('param', j)
+                    self._cur_param = j
+                    self.block(st.body)
                 return
             raise Unsupported(st, 'loop not understood')
         raise Unsupported(st, f"statement {norm_text(st)[:50]} not understood")
 
 
-def reference(n: int) -> Tuple[Lin, Lin, List[Lin]]:
+def reference(n: int):
     """Störmer–Verlet with g = ∇log π:  p += ε/2 g(q); [q += ε M⁻¹ p; p += ε g(q)]×n with the last ε/2."""
-    q, p = Lin.atom('q0'), Lin.atom('p0')
+    q, p = Vec.atom('q0'), Vec.atom('p0')
     evals = [q]
     half = Rat.const(1) / Rat.const(2)
-    p = p + Lin.atom('g0').scale(EPS * half)
+    p = p + Vec.atom('g0').scale(EPS * half)
     for k in range(1, n + 1):
         q = q + p.scale(EPS * MINV)
         evals.append(q)
-        p = p + Lin.atom(f"g{k}").scale(EPS * (half if k == n else Rat.const(1)))
+        p = p + Vec.atom(f"g{k}").scale(EPS * (half if k == n else Rat.const(1)))
     return q, p, evals
 
 
@@ -295,7 +493,8 @@ def check_integrator(ctx, rep):
     caught = set()
     for n in (1, 2, 3):
         try:
-            ex = Exec(fn, m, n).run()
+            helpers = {k: v for k, v in ctx.prog.module('torchtree.inference.hmc.integrator').functions.items()}
+            ex = Exec(fn, m, n, helpers).run()
         except Unsupported as u:
             rep.undecided('C16.P', f"LeapfrogIntegrator.__call__::steps={n}", where(m, u.node), str(u))
             continue
@@ -365,27 +564,48 @@ def check_operator(ctx, rep):
     ke_calls = method_calls(fn, 'kinetic_energy')
     int_calls = [c for c in ast.walk(fn) if isinstance(c, ast.Call) and self_attr(c.func) == '_integrator']
     samp = method_calls(fn, 'sample_momentum')
-    if len(ke_calls) != 2 or len(int_calls) != 1 or len(samp) != 1:
+    if len(ke_calls) != 2 or len(int_calls) != 1 or not samp:
         raise Unsupported(fn, f"HMCOperator._step: {len(ke_calls)} kinetic_energy, {len(int_calls)} integrator, {len(samp)} sample_momentum calls")
-    ke_calls.sort(key=lambda c: c.lineno)
-    k0s, k1s, ints, samps = stmt_of(ke_calls[0]), stmt_of(ke_calls[1]), stmt_of(int_calls[0]), stmt_of(samp[0])
-    K0, K1 = k0s.targets[0].id, k1s.targets[0].id
-    pvar = samps.targets[0].id
-    n0, n1, ni, ns = cfg.node_of(k0s), cfg.node_of(k1s), cfg.node_of(ints), cfg.node_of(samps)
-    order_ok = cfg.dominates(ns, n0) and cfg.dominates(n0, ni) and cfg.dominates(ni, n1) \
-        and ni.id not in cfg.reachable_after(n1, avoid={ns.id})
-    args0 = [ast.unparse(a) for a in ke_calls[0].args]
-    args1 = [ast.unparse(a) for a in ke_calls[1].args]
+    ints = stmt_of(int_calls[0])
+    ni = cfg.node_of(ints)
     int_target = ints.targets[0].id if isinstance(ints, ast.Assign) and isinstance(ints.targets[0], ast.Name) else None
-    same_m = len(args0) == 2 and len(args1) == 2 and args0[1] == args1[1]
-    mom_ok = args0[:1] == [pvar] and args1[:1] == [int_target]
-    # integrator receives the sampled momentum and the same inverse mass matrix
     iargs = [ast.unparse(a) for a in int_calls[0].args]
-    int_ok = pvar in iargs and (len(args0) > 1 and args0[1] in iargs)
-    facts = {'K0': norm_text(k0s), 'K1': norm_text(k1s), 'integrator_call': norm_text(ints)[:120], 'sampled_momentum': pvar}
-    rep.check('C16.K', 'HMCOperator._step::kinetic-energies-bracket-the-integrator', order_ok and same_m and mom_ok and int_ok, W, facts,
-              "K0 must be the kinetic energy of the sampled momentum before the integrator runs and K1 that of the momentum it returns, "
-              "both with the same inverse mass matrix that the integrator uses")
+    # K0 = the kinetic energy evaluated before the integrator on the momentum handed to it; K1 = after, on what it returns
+    ke_stmts = [stmt_of(c) for c in ke_calls]
+    before = [s_ for s_ in ke_stmts if ni.id in cfg.reachable_after(cfg.node_of(s_)) and cfg.node_of(s_).id not in cfg.reachable_after(ni, avoid={cfg.node_of(stmt_of(x)).id for x in samp})]
+    after = [s_ for s_ in ke_stmts if s_ not in before]
+    if len(before) != 1 or len(after) != 1:
+        raise Unsupported(fn, 'cannot tell the kinetic energy before the integrator from the one after it')
+    k0s, k1s = before[0], after[0]
+    K0, K1 = k0s.targets[0].id, k1s.targets[0].id
+    n0, n1 = cfg.node_of(k0s), cfg.node_of(k1s)
+    c0 = [c for c in ke_calls if stmt_of(c) is k0s][0]
+    c1 = [c for c in ke_calls if stmt_of(c) is k1s][0]
+    args0 = [ast.unparse(a) for a in c0.args]
+    args1 = [ast.unparse(a) for a in c1.args]
+    same_m = len(args0) == 2 and len(args1) == 2 and args0[1] == args1[1]
+    # every draw of the momentum that can reach the integrator call must pass through the K0 evaluation on its way
+    pvars = {stmt_of(x).targets[0].id for x in samp if isinstance(stmt_of(x), ast.Assign) and isinstance(stmt_of(x).targets[0], ast.Name)}
+    pvar = sorted(pvars)[0] if len(pvars) == 1 else None
+    fresh_ok = pvar is not None
+    stale = []
+    for x in samp:
+        d = cfg.node_of(stmt_of(x))
+        others = {cfg.node_of(stmt_of(y)).id for y in samp if y is not x}
+        if ni.id in cfg.reachable_after(d, avoid=others):
+            # paths d -> integrator that avoid other draws must go through K0
+            reach = cfg.reachable_after(d, avoid=others | {n0.id})
+            if ni.id in reach:
+                fresh_ok = False
+                stale.append(stmt_of(x).lineno)
+    mom_ok = pvar is not None and args0[:1] == [pvar] and args1[:1] == [int_target]
+    int_ok = pvar is not None and pvar in iargs and (len(args0) > 1 and args0[1] in iargs)
+    order_ok = cfg.dominates(ni, n1) and ni.id not in cfg.reachable_after(n1, avoid={cfg.node_of(stmt_of(x)).id for x in samp})
+    facts = {'K0': norm_text(k0s), 'K1': norm_text(k1s), 'integrator_call': norm_text(ints)[:120], 'sampled_momentum': pvar, 'draws_not_followed_by_K0': stale}
+    rep.check('C16.K', 'HMCOperator._step::kinetic-energies-bracket-the-integrator', order_ok and same_m and mom_ok and int_ok and fresh_ok, W, facts,
+              "K0 must be the kinetic energy of the very momentum handed to the integrator (re-evaluated after every fresh draw, e.g. on the retry path) and K1 that "
+              "of the momentum it returns, both with the same inverse mass matrix that the integrator uses"
+              + (f"; the draw at line {stale[0]} reaches the integrator without K0 being recomputed" if stale else ''))
     rets = [n for n in ast.walk(fn) if isinstance(n, ast.Return) and isinstance(n.value, ast.BinOp)]
     ok = len(rets) == 1 and isinstance(rets[0].value.op, ast.Sub) and isinstance(rets[0].value.left, ast.Name) and rets[0].value.left.id == K0 \
         and isinstance(rets[0].value.right, ast.Name) and rets[0].value.right.id == K1
@@ -396,6 +616,35 @@ def check_operator(ctx, rep):
                   or isinstance(n, ast.Return) and 'inf' in ast.unparse(n.value) for n in ast.walk(fn) if isinstance(n, ast.Return))
     rep.check('C16.K', 'HMCOperator._step::gives-up-with-infinite-hastings', inf_ret, W, None,
               "after repeated numerical failures the operator must return an infinite Hastings term (the MCMC loop then rejects)")
+    # the cached inverse mass matrix is the inverse of the mass matrix the momentum is drawn from, refreshed when it changes
+    ufn = op.resolve('update_mass_matrices')
+    if ufn is None:
+        raise Unsupported(op.node, 'update_mass_matrices not found')
+    stores = [st for st in ast.walk(ufn[1]) if isinstance(st, ast.Assign) and any(self_attr(t) == 'inverse_mass_matrix' for t in st.targets)]
+    okinv = len(stores) >= 1
+    forms = []
+    for st in stores:
+        v = st.value
+        if isinstance(v, ast.BinOp) and isinstance(v.op, ast.Div) and isinstance(v.left, ast.Constant) and float(v.left.value) == 1.0 and self_attr(v.right) == 'mass_matrix':
+            forms.append('1/M')
+        elif isinstance(v, ast.Call) and (dotted_name(v.func) or '') in ('torch.inverse', 'torch.linalg.inv') and v.args and self_attr(v.args[0]) == 'mass_matrix':
+            forms.append('inv(M)')
+        elif isinstance(v, ast.Call) and (dotted_name(v.func) or '') == 'torch.cholesky_inverse' and v.args and isinstance(v.args[0], ast.Call) \
+                and (dotted_name(v.args[0].func) or '') in ('torch.linalg.cholesky', 'torch.cholesky') and self_attr(v.args[0].args[0]) == 'mass_matrix':
+            forms.append('cholesky_inverse(cholesky(M))')
+        else:
+            forms.append('?' + norm_text(v)[:40])
+            okinv = False
+    rep.check('C16.K', 'HMCOperator.update_mass_matrices::inverse-of-the-mass-matrix', okinv and set(forms) >= {'1/M'} and len(forms) >= 2, where(m, ufn[1]), {'forms': forms},
+              f"inverse_mass_matrix must be 1/M (diagonal) and inv(M) (dense) of the mass matrix the momentum is drawn from; found {forms}: "
+              f"kinetic energy and integrator then use a matrix that is not M⁻¹, so the Hastings term is not the change of the operator's own Hamiltonian")
+    hfn = op.resolve('handle_parameter_changed')
+    refreshed = hfn is not None and any(self_attr(c.func) == 'update_mass_matrices' for c in ast.walk(hfn[1]) if isinstance(c, ast.Call))
+    init = op.resolve('__init__')[1]
+    listens = any(isinstance(c, ast.Call) and isinstance(c.func, ast.Attribute) and c.func.attr == 'add_parameter_listener' and c.args
+                  and isinstance(c.args[0], ast.Name) and c.args[0].id == 'self' for c in ast.walk(init))
+    rep.check('C16.K', 'HMCOperator::inverse-refreshed-when-mass-matrix-changes', refreshed and listens, where(m, op.node), {'listens': listens, 'handler_refreshes': refreshed},
+              "the operator must listen to its mass-matrix parameter and recompute the cached inverse when it changes (mass-matrix adaptation)")
     # Hamiltonian pair: sample N(0, M)  <->  K = 1/2 p^T M^-1 p
     ham = ctx.classes.get(HAM)
     kfn = ham.resolve('kinetic_energy')[1]
